@@ -43,7 +43,13 @@ def run(tier):
             g = {"lex": lex, "syn": syn}
             ids = []
             for fl in subsets():
-                i = b.add(g, flags=["-a"] + fl)
+                text = None
+                if k % 3 == 0 and any(p2[2] for p2 in syn):
+                    # the file header may declare any identifier the plain parser package leaves free, e.g. the names of the
+                    # packages the -zip tables need
+                    text = gram.render(g, pkg_token="ws/g%d/out/token" % len(b.items))
+                    text = text.replace(") >>", ")\nfunc bytes() int { return 1 }\nvar gzip, gob = bytes(), 2\nvar _, _ = gzip, gob\n>>", 1)
+                i = b.add(g, flags=["-a"] + fl, text=text)
                 # all variants must see the same grammar text (import paths differ per directory only)
                 ids.append((i, fl))
             groups.append((g, ids))
@@ -54,7 +60,24 @@ def run(tier):
             if len(rcs) != 1:
                 ck.violation("exit status depends on presentation flags: %s" % {tuple(fl): b.items[i]["rc"] for i, fl in ids}, {"bnf": b.items[ids[0][0]]["text"].decode()})
         if not b.build(comp, e2e=True):
-            raise C.BuildError("flag variants do not compile:\n" + b.build_log[-3000:])
+            # which variants do not compile?  If the plain variant of a grammar compiles and a flagged one does not, the
+            # flag changed what gocc generates in the most visible way
+            bad = b.build_each(comp)
+            reported = False
+            for g, ids in groups:
+                ref = ids[0][0]
+                if ref in bad:
+                    continue
+                for i, fl in ids:
+                    if i in bad:
+                        reported = True
+                        ck.violation("flags %s make the generated packages uncompilable (the plain variant compiles): %s" % (fl, bad[i][-300:]),
+                                     {"bnf": b.items[i]["text"].decode(), "flags": fl, "go_build": bad[i][-1500:]})
+            if not reported:
+                raise C.BuildError("flag variants do not compile:\n" + b.build_log[-3000:])
+            comp = [i for i in comp if i not in bad]
+            if not b.build(comp, e2e=True):
+                raise C.BuildError("flag variants do not compile:\n" + b.build_log[-3000:])
         for g, ids in groups:
             ref = ids[0][0]
             if b.items[ref]["rc"] != 0:
